@@ -363,6 +363,12 @@ WITNESSES = [
      {"m1.f90": "module m1\ninteger :: x\nend module m1\n", "m2.f90": "module m2\nuse m1, only: x\nend module m2\n",
       "main.f90": "program p\nuse m1\nuse m2, only: r => x\ninteger :: q\nq = r\nend program p\n"},
      ("main.f90", 4, 5), ("m1.f90", 1)),
+    # regression (fixed ee7556d): m2 first reached with an ONLY list, then wholly through m3; kap of m1 is re-exported by m2
+    ("C05:only-widened-no-descent",
+     {"m1.f90": "module m1\ninteger :: kap\ninteger :: zeta\nend module m1\n", "m2.f90": "module m2\nuse m1, only: kap, zeta\ninteger :: lam\nend module m2\n",
+      "m3.f90": "module m3\nuse m2\nend module m3\n",
+      "main.f90": "program p\nuse m2, only: lam, zeta\nuse m3\ninteger :: q\nq = kap\nend program p\n"},
+     ("main.f90", 4, 5), ("m1.f90", 1)),
     ("C05:private-reexport",
      {"m1.f90": "module m1\ninteger :: x\nend module m1\n", "m2.f90": "module m2\nuse m1\nprivate\nend module m2\n",
       "main.f90": "program p\nuse m2\ninteger :: q\nq = x\nend program p\n"},
